@@ -3,6 +3,8 @@ package mon
 import (
 	"fmt"
 
+	"github.com/woodsbury/decimal128"
+
 	"verif/harness/gen"
 	"verif/harness/ref"
 )
@@ -29,6 +31,42 @@ func c20Setup(c *Ctx) {
 		}
 		c20Pool = append(c20Pool, v)
 	}
+}
+
+// number carriers: each converts a number only when the kind holds it exactly
+var c20Carriers = []ref.NumMode{
+	func(n ref.Num) any {
+		if f, exact := n.R.Float64(); exact {
+			return f
+		}
+		return ref.JSONNumber(n)
+	},
+	func(n ref.Num) any {
+		if n.R.IsInt() && n.R.Num().IsInt64() {
+			return n.R.Num().Int64()
+		}
+		return ref.JSONNumber(n)
+	},
+	func(n ref.Num) any {
+		if ref.ExactDec(n) {
+			if d, err := decimal128.Parse(ref.NumText(n)); err == nil {
+				return d
+			}
+		}
+		return ref.JSONNumber(n)
+	},
+	func(n ref.Num) any {
+		if f, exact := n.R.Float64(); exact && float64(float32(f)) == f {
+			return float32(f)
+		}
+		return ref.JSONNumber(n)
+	},
+	func(n ref.Num) any {
+		if n.R.IsInt() && n.R.Num().IsUint64() {
+			return n.R.Num().Uint64()
+		}
+		return ref.JSONNumber(n)
+	},
 }
 
 func lit(i int) string { return "`" + c20PoolText[i] + "`" }
@@ -67,6 +105,21 @@ func c20Pairs(c *Ctx, idx int) {
 		got, ok := c.libBool(text, goDoc)
 		if ok && got != want {
 			c.Report(Violation{Rule: rule, Expr: text, Data: ref.ToJSONText(doc), Got: fmt.Sprint(got), Want: fmt.Sprint(want), Detail: pair})
+		}
+	}
+	// the same relation when the numbers travel in other Go kinds (each where it holds the value
+	// exactly): x as float64 / int64 against y as json.Number or decimal128, and both converted
+	for ci, carrier := range c20Carriers {
+		alt := map[string]any{"x": ref.ToGo(x, carrier), "y": ref.ToGo(y, c20Carriers[(ci+1+i+j)%len(c20Carriers)]), "ys": []any{"pad", ref.ToGo(y, carrier), "pad2"}}
+		for _, t := range []struct {
+			text string
+			want bool
+			rule string
+		}{{"x == y", want, "C20/equality"}, {"y == x", want, "C20/symmetry"}, {"x != y", !want, "C20/negation"}, {"contains(ys, x)", want, "C20/contains"}, {"x == " + lit(j), want, "C20/equality"}, {lit(i) + " == y", want, "C20/equality"}, {"[x] == [y]", want, "C20/container-equality"}, {"length(ys[?@ == $.x]) == `1`", want && y != nil, "C20/filter-equality"}} {
+			got, ok := c.libBool(t.text, alt)
+			if ok && got != t.want {
+				c.Report(Violation{Rule: t.rule, Expr: t.text, Data: gen.Describe(alt), Got: fmt.Sprint(got), Want: fmt.Sprint(t.want), Detail: pair, Features: map[string]string{"carrier": fmt.Sprint(ci)}})
+			}
 		}
 	}
 	check("x == y", want, "C20/equality")
@@ -321,7 +374,7 @@ func perturb(r *gen.R, v ref.V) ref.V {
 func init() {
 	Register(&Property{
 		ID:            "C20",
-		Rule:          "a 74-value pool (incl. 19/20-digit integers around 2^63 and 2^64 and pairs differing by exactly 2^64) (nested containers, numerically equal numbers in different spellings inside containers, reordered members, near misses, 1 vs \"1\", true vs \"true\", 0 vs false, [] vs {} vs \"\" vs null): all ordered pairs through ==, !=, contains, filter equality and container wrappers via literals and via document fields, checked against deep type-strict model equality plus reflexivity/symmetry/negation; all triples (thorough; seeded sample in quick) for transitivity of the library's own ==; every value x value through !, &&, ||, filter predicates against the single false-like set with && / || returning an operand unchanged; seeded random nested values with one controlled perturbation (respelling/reordering keeps equality, one changed leaf breaks it); matrix stream: whole comparison matrices computed inside ONE evaluation (operands rebound per element through let / current node, so every comparison node is evaluated many times with different operand values and types), compared with the model; non-trivial = each judged pair/value/document",
+		Rule:          "a 74-value pool (incl. 19/20-digit integers around 2^63 and 2^64 and pairs differing by exactly 2^64) (nested containers, numerically equal numbers in different spellings inside containers, reordered members, near misses, 1 vs \"1\", true vs \"true\", 0 vs false, [] vs {} vs \"\" vs null): all ordered pairs through ==, !=, contains, filter equality and container wrappers via literals and via document fields, checked against deep type-strict model equality - with the numbers as json.Number and again as float64 / float32 / int64 / uint64 / decimal128 wherever the kind holds the value exactly, against literals and against each other - plus reflexivity/symmetry/negation; all triples (thorough; seeded sample in quick) for transitivity of the library's own ==; every value x value through !, &&, ||, filter predicates against the single false-like set with && / || returning an operand unchanged; seeded random nested values with one controlled perturbation (respelling/reordering keeps equality, one changed leaf breaks it); matrix stream: whole comparison matrices computed inside ONE evaluation (operands rebound per element through let / current node, so every comparison node is evaluated many times with different operand values and types), compared with the model; non-trivial = each judged pair/value/document",
 		MinNontrivial: 3000,
 		Streams: []Stream{
 			{Name: "pairs", Setup: c20Setup, N: func(c *Ctx) int { c20Setup(c); return len(c20Pool) * len(c20Pool) }, Run: c20Pairs, Exhaustive: true},
